@@ -39,6 +39,11 @@ def tainted(t, tparams=(), bound=1):
         return False
     if t[0] == "field" and t[2] in (1, "1") and t[1][0] == "call" and t[1][1].endswith("::size_hint"):
         return True
+    if t[0] == "call" and t[1].endswith("::size_hint") and "Access" in t[1]:
+        return True   # the Option itself (`seq.size_hint().unwrap_or(0)`)
+    if t[0] == "some" and strip(t[1])[0] == "call" and strip(t[1])[1].endswith("::size_hint") and "Access" in strip(t[1])[1]:
+        # serde: `SeqAccess::size_hint()` / `MapAccess::size_hint()` is what the INPUT announces (a length prefix): any number
+        return True
     if t[0] == "param" and (t[1], t[2]) in tparams:
         return True
     if t[0] == "call" and t[1].split("::")[-1] not in TAINT_THROUGH:
@@ -82,6 +87,9 @@ def hint_scan(view, bound=1):
     for f in prog.fns.values():
         for bb, t in f.calls():
             if "func" in t and t["func"]["key"] == "std::iter::Iterator::size_hint" and (f.j.get("impl_trait") or "") != "std::iter::Iterator":
+                src_fns.add(f.key)
+                nsrc += 1
+            elif "func" in t and t["func"]["key"] in ("serde::de::SeqAccess::size_hint", "serde::de::MapAccess::size_hint"):
                 src_fns.add(f.key)
                 nsrc += 1
     work = [(k, frozenset()) for k in sorted(src_fns)]
@@ -705,13 +713,18 @@ def passes_param(view, f, pidx):
 def is_slot_range_var(t):
     """the loop variable of `for i in 0..map.len()`: every slot number of the map, once, in order"""
     t = strip(t)
-    for x in walk(t):
-        if x[0] == "call" and x[1].split("::")[-1] == "next" and x[2]:
-            for y in walk(x[2][0]):
-                if y[0] == "adt" and y[1].split("::")[-1] == "Range" and len(y[3]) == 2 and const_int(strip(y[3][0])) == 0:
-                    hi = strip(y[3][1])
-                    if hi[0] == "call" and hi[1].split("::")[-1] == "len" and hi[2] and component(hi[2][0]) and component(hi[2][0])[0] == "map":
-                        return True
+    while t[0] in ("some", "ref", "deref"):
+        t = strip(t[1])
+    if not (t[0] == "call" and t[1].split("::")[-1] == "next" and t[2]):
+        return False
+    y = strip(t[2][0])
+    # the range itself, taken as it is: no `rev()`, `skip()`, `step_by()`, `take()` .. in between (another order, or not every slot)
+    while y[0] in ("ref", "deref") or (y[0] == "call" and y[1].split("::")[-1] == "into_iter" and len(y[2]) == 1):
+        y = strip(y[1] if y[0] in ("ref", "deref") else y[2][0])
+    if y[0] == "adt" and y[1].split("::")[-1] == "Range" and len(y[3]) == 2 and const_int(strip(y[3][0])) == 0:
+        hi = strip(y[3][1])
+        if hi[0] == "call" and hi[1].split("::")[-1] == "len" and hi[2] and component(hi[2][0]) and component(hi[2][0])[0] == "map":
+            return True
     return False
 
 
@@ -733,7 +746,11 @@ def slot_scan_ok(view, f, bb, t):
     # every iteration invokes it and records the verdict
     pushes = [b2 for b2, t2 in f.calls() if "func" in t2 and t2["func"]["key"] == "std::vec::Vec::push" and b2 in loop["body"]]
     site = vp.call_term(f, bb, t)
-    pushes = [b2 for b2 in pushes if contains_term(vp.operand(f, f.term(b2)["args"][1]), site)]
+    # the verdict itself (not its negation, not a combination)
+    def is_site(x):
+        x = strip(x)
+        return x[0] == "call" and len(x) > 3 and x[3] == site[3]
+    pushes = [b2 for b2 in pushes if is_site(vp.operand(f, f.term(b2)["args"][1]))]
     if len(pushes) != 1:
         return False, "the verdict is not pushed exactly once per iteration (%d pushes of it)" % len(pushes)
     for (tail, head) in loop["backedges"]:
@@ -758,8 +775,37 @@ def slot_scan_ok(view, f, bb, t):
         return False, "the closure handed to retain2 runs user code"
     r = strip(ret_term(view, cl))
     names = [x[1].split("::")[-1] for x in walk(r) if x[0] == "call"]
-    if "next" not in names or not any(n in ("unwrap_or", "unwrap", "unwrap_or_default", "expect") for n in names):
-        return False, "the closure handed to retain2 does not answer with the next recorded verdict (%s)" % term_str(r)[:60]
+    # (captured variables are resolved to where they were made: `keep.into_iter()` of the vector `Vec::with_capacity(map.len())`)
+    if not ("next" in names and len([n for n in names if n in ("unwrap_or", "unwrap", "expect")]) == 1 and
+            set(names) <= {"next", "unwrap_or", "unwrap", "expect", "into_iter", "with_capacity", "new", "len"}):
+        return False, "the closure handed to retain2 does not answer with exactly the next recorded verdict (%s)" % term_str(r)[:60]
+    # .. of the recorded vector taken front to back: between `keep.push(..)` and the replay nothing but `into_iter()` touches it
+    def root_local(o):
+        # the variable an operand denotes, through the `&mut v` temporaries made for method calls
+        for _ in range(6):
+            if o.get("k") not in ("copy", "move") or [e for e in o["place"]["proj"] if e["k"] != "deref"]:
+                return None
+            L = o["place"]["local"]
+            ds = f.defs.get(L, [])
+            if len(ds) == 1 and ds[0][0] == "stmt" and ds[0][3]["rv"]["k"] == "ref" and not ds[0][3]["rv"]["place"]["proj"]:
+                o = {"k": "copy", "place": ds[0][3]["rv"]["place"]}
+                continue
+            if len(ds) == 1 and ds[0][0] == "stmt" and ds[0][3]["rv"]["k"] == "use" and ds[0][3]["rv"]["op"].get("k") in ("copy", "move") \
+                    and not f.locals[L]["name"]:
+                o = ds[0][3]["rv"]["op"]
+                continue
+            return L
+        return None
+    KV = root_local(f.term(pushes[0])["args"][0])
+    other = []
+    for b2, t2 in f.calls():
+        if b2 in (pushes[0], rets[0][1]) or "func" not in t2 or KV is None:
+            continue
+        nm = t2["func"]["name"]
+        if any(root_local(a2) == KV for a2 in t2["args"]) and nm not in ("into_iter", "with_capacity", "new", "reserve", "len", "drop"):
+            other.append(nm)
+    if other:
+        return False, "the recorded verdicts are reordered / filtered before they are replayed (%s)" % sorted(set(other))
     return True, "invoked once per slot in a scan over 0..map.len(); retain2 replays the recorded verdicts in order"
 
 
